@@ -173,6 +173,8 @@ def run(ctx, spec):
         dup = slopecfg._mask(str(rng.choice(["random", "full", "L", "circle"])), n, rng)
         n_wfs = int(rng.integers(3, 5))
         which = int(rng.integers(1, n_wfs))           # the off-axis sensor the on-axis one duplicates
+        if j == 0 and spec["shard"] % 2 == 0:
+            which = 2                                  # always present: the duplicate listed after a sensor with another cone geometry
         masks = [dup] + [slopecfg._mask(str(rng.choice(["random", "full"])), n, rng) for _ in range(n_wfs - 1)]
         masks[which] = dup.copy()
         pos = [[float(v) for v in rng.uniform(-30, 30, 2)] for _ in range(n_wfs)]
